@@ -83,6 +83,7 @@ type areq struct {
 	Body                []byte // expected body bytes (non-multipart)
 	Fields              map[string]string
 	Files               map[string]string // param -> content (file name = param+".txt")
+	FileName            string            // file name of the uploaded file ("" = param+".txt")
 	Frag                string            // fragment of the URL the application gave (never part of a request)
 	SkipBody            bool              // the application sets Response.SkipBody before the call
 }
@@ -188,6 +189,11 @@ func genReq(r *mon.Rand, i int, rawOnly bool) *areq {
 		a.Fields = map[string]string{"f1": "field one", "f2": "a&b=c"}
 		// file sizes around the 512-byte content-type sniffing buffer too
 		a.Files = map[string]string{"up": string(wire.PosBody(i, r.Int(0, 10, 5000, 511, 512, 513, 1024, 70000)))}
+		if r.Chance(4) {
+			// a file name with a double quote in it (legal in a file name; inside the
+			// quoted-string of Content-Disposition it has to be escaped)
+			a.FileName = `re"port".txt`
+		}
 	}
 	return a
 }
@@ -228,15 +234,19 @@ func (a *areq) build(r *mon.Rand, req *protocol.Request) {
 	case "multipart":
 		req.SetMultipartFormData(a.Fields)
 		for p, content := range a.Files {
+			name := p + ".txt"
+			if a.FileName != "" {
+				name = a.FileName
+			}
 			// the file comes from a reader that fills buffers, or from one with short
 			// reads (a pipe, a relayed body), possibly tiny ones
 			switch r.Intn(3) {
 			case 0:
-				req.SetFileReader(p, p+".txt", strings.NewReader(content))
+				req.SetFileReader(p, name, strings.NewReader(content))
 			case 1:
-				req.SetFileReader(p, p+".txt", &shortReader{[]byte(content), r.Fork()})
+				req.SetFileReader(p, name, &shortReader{[]byte(content), r.Fork()})
 			default:
-				req.SetFileReader(p, p+".txt", io.MultiReader(strings.NewReader(content[:len(content)/3]), &shortReader{[]byte(content[len(content)/3:]), r.Fork()}))
+				req.SetFileReader(p, name, io.MultiReader(strings.NewReader(content[:len(content)/3]), &shortReader{[]byte(content[len(content)/3:]), r.Fork()}))
 			}
 		}
 	}
@@ -720,8 +730,12 @@ func compareReq(a *areq, m *wire.Message, hr *http.Request, hbody []byte, v *rig
 			f, _ := fhs[0].Open()
 			b, _ := io.ReadAll(f)
 			f.Close()
-			if string(b) != content || fhs[0].Filename != p+".txt" {
-				return fmt.Sprintf("multipart file %q: name %q, %d bytes want %d", p, fhs[0].Filename, len(b), len(content))
+			wantName := p + ".txt"
+			if a.FileName != "" {
+				wantName = a.FileName
+			}
+			if string(b) != content || fhs[0].Filename != wantName {
+				return fmt.Sprintf("multipart file %q: name %q want %q, %d bytes want %d", p, fhs[0].Filename, wantName, len(b), len(content))
 			}
 		}
 	}
